@@ -176,9 +176,14 @@ public:
 	/// Variables' reference counting ///////////////////////////////////
 	/// Currently only for defined variables ////////////////////////////
 
-	/// Use "+1" a variable
+	/// Use "+1" a variable.
+	/// If its defining expression was marked unused (usage dropped
+	/// to 0, e.g., when inlined into a nested And/Or) and it is
+	/// referenced again - it is still found via the constraint map -
+	/// the expression is revived.
 	void IncrementVarUsage(int v) {
-		++VarUsageRef(v);
+		if (!(VarUsageRef(v)++) && HasInitExpression(v))
+			MarkAsUsed(GetInitExpression(v));
 	}
 
 	/// Unuse result variable.
@@ -454,6 +459,11 @@ public:
   /// Mark constraint as unused
   void MarkAsUnused(const ConInfo& ci) {
     ci.GetCK()->MarkAsUnused(ci.GetIndex());
+  }
+
+  /// Revert MarkAsUnused()
+  void MarkAsUsed(const ConInfo& ci) {
+    ci.GetCK()->MarkAsUsed(ci.GetIndex());
   }
 
 
